@@ -369,6 +369,8 @@ def canon_type(t, sig):
         return ("L", c(t.type))
     if isinstance(t, dt.DDict):
         return ("D", c(t.type))
+    if isinstance(t, dt.DTuple):
+        return ("T", tuple(c(x) for x in t.types))
     if isinstance(t, dt.StringLiteral):
         return "str" if t.overflowed else ("Lit", tuple(sorted(t.literals)))
     if t is dt.Null:
@@ -452,6 +454,9 @@ def nf_violations(t, sreg, where="", top=True):
         c(t.type, "[]")
     elif isinstance(t, dt.DDict):
         c(t.type, "{}")
+    elif isinstance(t, dt.DTuple):
+        for i, m in enumerate(t.types):
+            c(m, "(%d)" % i)
     elif isinstance(t, dt.StringLiteral):
         if t.overflowed:
             out.append(("overflowed-literal-left", where))
